@@ -30,7 +30,14 @@ POOL = {
     "v_retf": "@guppy\ndef v_retf(x: int) -> float:\n    return 16.5\n",
     "v_decl": "@guppy.declare\ndef v_decl(x: float) -> int: ...\n",
     "v_none": "@guppy\ndef v_none() -> int:\n    return 18\n",
+    # a variant that is itself an overloaded function
+    "v_nested": "@guppy.overload(v_bool, v_float)\ndef v_nested(): ...\n",
+    # two variants whose Python-level function name is the same (defined in different scopes)
+    "v_same1": "def _mk1():\n    @guppy\n    def conv(x: bool) -> int:\n        return 20\n    return conv\n\nv_same1 = _mk1()\n",
+    "v_same2": "def _mk2():\n    @guppy\n    def conv(x: float) -> int:\n        return 21\n    return conv\n\nv_same2 = _mk2()\n",
 }
+ALL_DEFS = "".join(POOL.values())
+CORE8 = ["v_int", "v_float", "v_nat", "v_bool", "v_int2", "v_gen", "v_retf", "v_decl"]
 DECL_ID = 17
 
 ARGS = {
@@ -88,27 +95,30 @@ def observe(src_list):
 
 def eval_direct(item):
     v, args, pos = item
-    return observe(program(POOL[v], v, args, pos))
+    return observe(program(ALL_DEFS, v, args, pos))
 
 
 def eval_overload(item):
     variants, args, pos = item
-    defs = "".join(POOL[v] for v in variants) + f"\n@guppy.overload({', '.join(variants)})\ndef f(): ...\n"
+    defs = ALL_DEFS + f"\n@guppy.overload({', '.join(variants)})\ndef f(): ...\n"
     return observe(program(defs, "f", args, pos))
 
 
 def lists(tier):
     names = list(POOL)
-    maxlen = 3 if tier == "quick" else 4
+    out = list(itertools.permutations(names, 2))
     if tier == "quick":
-        names = [n for n in names if n != "v_none"]
-    out = []
-    for L in range(2, maxlen + 1):
-        out.extend(itertools.permutations(names, L))
-    if tier != "quick":
-        # full permutations only over a 6-variant core at length 4
-        core = ["v_int", "v_float", "v_nat", "v_gen", "v_retf", "v_int2"]
-        out = [l for l in out if len(l) < 4 or all(x in core for x in l)]
+        out += list(itertools.permutations(CORE8, 3))
+        # the nested / same-named variants in every position of a 3-list with two core variants
+        extra = ["v_nested", "v_same1", "v_same2"]
+        for e in extra:
+            for a, b in itertools.permutations(["v_int", "v_gen"], 2):
+                out += [(e, a, b), (a, e, b), (a, b, e)]
+        out += [("v_same1", "v_same2", "v_int"), ("v_same2", "v_same1", "v_gen"), ("v_int2", "v_same1", "v_same2")]
+        return out
+    out += list(itertools.permutations(names, 3))
+    core = ["v_int", "v_float", "v_nat", "v_gen", "v_retf", "v_int2"]
+    out += list(itertools.permutations(core, 4))
     return out
 
 
